@@ -404,6 +404,15 @@ def run(ctx):
     chk.ob("labels/scan-covers-all", not missing and len(bearing) >= 20,
            "the undefined-label scan has an explicit arm for every instruction that can carry a label",
            vb.loc(), "label-bearing variants without an arm: %s" % missing)
+    # semantic version: the scan, interpreted abstractly on every instruction shape (labels opaque)
+    from .. import labelscan
+    nshapes, bad_scan = labelscan.scan(p)
+    chk.ob("labels/scan-semantic", not bad_scan,
+           "for every instruction shape: a reference to an undefined label is reported (all labels of the line, in any operand "
+           "position), and the same line is accepted once the labels are defined - compared case-insensitively",
+           vb.loc(), "; ".join(bad_scan[:4]) or "%d (shape, definition mode) cases" % nshapes,
+           "abstract interpretation of validate_lines per AST shape with opaque label names")
+    chk.floor("validate_lines shape cases", nshapes, 2300)
     lower_calls = 0
     for path in [vb.path] + [k for k in p.bodies if k.startswith(vb.path + "::{closure")]:
         for bb, t in mirutil.calls_in(p.bodies[path]):
